@@ -9,6 +9,16 @@ mod serde;
 pub mod subtags;
 
 pub use crate::errors::LanguageIdentifierError;
+
+/// Read-only view of the compiled lookup tables for external verification tooling.
+/// Only present when built with `--cfg unic_locale_verif`.
+#[cfg(unic_locale_verif)]
+#[doc(hidden)]
+pub mod verif_hooks {
+    pub use crate::layout_table::*;
+    #[cfg(feature = "likelysubtags")]
+    pub use crate::likelysubtags::verif_tables::*;
+}
 use std::fmt::Write;
 use std::iter::Peekable;
 use std::str::FromStr;
